@@ -107,7 +107,8 @@ def h20(c, mode="sim", K=3, n_markets=2):
                     # not it ever gets an order into the blotter
                     s_.get_runner_context(mid, 1, 0)
                 if market is not None and mid not in order_in and c.choose("place_order_at%d" % k, [False, True]):
-                    o, _ = ss.resting_limit(c, "o%d" % k, fl, market, strategies[0], 100 + k, status=S.EXECUTABLE, price=2.0, persistence="LAPSE",
+                    # (the order may also still be awaiting its placement acknowledgement when the market closes)
+                    o, _ = ss.resting_limit(c, "o%d" % k, fl, market, strategies[0], 100 + k, status=c.choose("order_status%d" % k, [S.EXECUTABLE, S.PENDING]), price=2.0, persistence="LAPSE",
                                             max_frags=1, min_frags=1, allow_cancelled=False, side="BACK", client=clients[0],
                                             trade=__import__("flumine.order.trade", fromlist=["Trade"]).Trade(mid, 1, 0, strategies[0]))
                     order_in[mid] = o
@@ -190,10 +191,66 @@ def h20(c, mode="sim", K=3, n_markets=2):
         c.cover("run")
 
 
-OUT = ["more than K updates / 2 markets / 2 strategies", "raw-data recorder mode (dict updates) is exercised only in thorough tier harness H20-raw"]
+def h20_raw(c, K=3):
+    """raw-data recorder mode: K dict updates for one market (a market definition with symbolic status, or a price delta without one) through
+    the real _process_raw_data / _process_close_market of a live framework with a recording strategy, the closure poll after each closing
+    update: closed callback once per closing update with the datum, market marked closed; ANY datum that arrives for a closed market re-opens
+    it with its cleared flags reset (also a delta without a definition, also a repeated CLOSED definition)"""
+    from flumine import worker
+    with cm.config_set(simulated=False):
+        calls, raws = [], []
+        cleared_reqs = []
+
+        def list_cleared_orders(**kw):
+            cleared_reqs.append((kw["market_ids"][0], kw.get("group_by")))
+            return cm.NS(orders=[cm.NS(market_id=kw["market_ids"][0])], more_available=False)
+
+        fl, client, (strategy,) = cm.new_live(n_strategies=1, hooks=dict(process_closed_market=lambda s_, m, b: calls.append((m.market_id, b))),
+                                              exchange=cm.NS(list_cleared_orders=list_cleared_orders))
+        strategy.process_raw_data = lambda clk, pt, datum: raws.append(datum)
+        log = LogRec()
+        fl.add_logging_control(log)
+        mid = MIDS[0]
+        closed = False
+        for k in range(K):
+            kind = c.choose("datum%d" % k, ["definition-OPEN", "definition-SUSPENDED", "definition-CLOSED", "delta-without-definition"])
+            datum = {"id": mid, "rc": [{"id": 1, "ltp": 2.0}]}
+            if kind.startswith("definition"):
+                datum["marketDefinition"] = {"status": kind.split("-")[1], "runners": []}
+            n_calls, n_raw = len(calls), len(raws)
+            with c.guard("datum%d" % k):
+                fl._process_raw_data(events.RawDataEvent((cm.STREAM_ID, "clk", cm.T0_MS + k, [datum])))
+                market = fl.markets.markets.get(mid)
+                if closed:
+                    # data arrived again for a closed market
+                    c.ob("datum%d.reopened-with-flags-reset" % k, market is not None and market.closed is False and market.orders_cleared == [] and market.market_cleared == [],
+                         datum=kind)
+                    c.cover("reopened")
+                    closed = False
+                _drain(fl, log)
+            c.ob("datum%d.strategy-receives-the-raw-datum-once" % k, len(raws) == n_raw + 1 and raws[-1] is datum)
+            if kind == "definition-CLOSED":
+                c.ob("datum%d.closed-callback-once-with-the-datum" % k, len(calls) == n_calls + 1 and calls[-1][0] == mid and calls[-1][1] is datum)
+                c.ob("datum%d.market-marked-closed" % k, market is not None and market.closed is True)
+                n0 = len(cleared_reqs)
+                with c.guard("poll_market_closure"):
+                    worker.poll_market_closure({}, fl)
+                    _drain(fl, log)
+                mine = [r for r in cleared_reqs[n0:] if r[0] == mid]
+                c.ob("datum%d.closure-poll.cleared-orders-and-market-requested" % k, len([r for r in mine if r[1] is None]) == 1 and len([r for r in mine if r[1] == "MARKET"]) == 1,
+                     got=str(mine))
+                closed = True
+                c.cover("closed")
+            else:
+                c.ob("datum%d.no-closed-callback" % k, len(calls) == n_calls)
+        c.cover("run")
+
+
+OUT = ["more than K updates / 2 markets / 2 strategies", "raw-data recorder mode: one market, K dict updates (H20-raw)"]
 HARNESSES = [
     Harness("H20-sim", h20, quick=dict(mode="sim", K=3), thorough=dict(mode="sim", K=4), pattern="P3 bounded history",
             requires=["run", "closed", "repeated-close", "reopened", "close-unseen"], outside=OUT, max_paths=(400000, 4000000), wall_s=(300, 3000)),
+    Harness("H20-raw", h20_raw, quick=dict(K=3), thorough=dict(K=5), pattern="P3 bounded history (dict updates)", requires=["run", "closed", "reopened"], outside=OUT, selfcheck=False),
     Harness("H20-live", h20, quick=dict(mode="live", K=3), thorough=dict(mode="live", K=4), pattern="P3 bounded history + symbolic clock",
             clock_modules=("flumine.markets.market",), requires=["run", "closed", "removed", "reopened", "closure-poll"], outside=OUT, max_paths=(400000, 4000000), wall_s=(300, 3000)),
 ]
